@@ -23,7 +23,10 @@ def base_spec(rng):
     """a sensitive 1-2 channel model without bin-wise modifiers shared in ways that forbid splitting"""
     for _ in range(50):
         spec, info = gen_spec.gen_spec(rng, max_channels=2, max_samples=3, max_bins=3)
-        if not any(m['type'] == 'shapefactor' for c in spec['channels'] for s in c['samples'] for m in s['modifiers']):
+        # well-posed at every tested signal strength incl. mu = 0: every bin keeps a background yield
+        bkg_ok = all(sum(s['data'][b] for s in c['samples'] if not any(m['name'] == 'mu' for m in s['modifiers'])) >= 1.0
+                     for c in spec['channels'] for b in range(len(c['samples'][0]['data'])))
+        if bkg_ok and not any(m['type'] == 'shapefactor' for c in spec['channels'] for s in c['samples'] for m in s['modifiers']):
             # make the signal sizeable
             for c in spec['channels']:
                 for s in c['samples']:
@@ -234,21 +237,30 @@ def run(ctx):
         if len(names) >= 2: ctx.nontrivial(json.dumps([spec, names], sort_keys=True))
         if i < 2: ctx.sample({'rewrites': names, 'logpdf_original': l0, 'logpdf_rewritten': l1, 'constant': const})
     # ---- backends and optimisers agree (64b)
-    for j in range(ctx.n(2, 40)):
+    for j in range(ctx.n(10, 60)):
         spec, info = base_spec(rng)
         vals = {}
-        for bk, opt in [('numpy', 'scipy'), ('pytorch', 'scipy'), ('numpy', 'minuit')] + ([('jax', 'scipy'), ('tensorflow', 'scipy')] if ctx.thorough else []):
+        fluct = np.random.RandomState(rng.randrange(2**31)); obs = None      # fluctuated observations pull the nuisance parameters to either sign
+        for bk, opt in [('numpy', 'scipy'), ('numpy', 'minuit')] + ([('pytorch', 'scipy')] if (j < 2 or ctx.thorough) else []) + ([('jax', 'scipy'), ('tensorflow', 'scipy')] if ctx.thorough else []):
             pyhf.set_backend(bk, pyhf.optimize.scipy_optimizer(tolerance=1e-10) if opt == 'scipy' else pyhf.optimize.minuit_optimizer(tolerance=1e-4))
             m = pyhf.Model(spec, poi_name='mu')
             exp0 = np.asarray(pyhf.tensorlib.tolist(m.expected_data(pyhf.tensorlib.astensor(np.asarray(m.config.suggested_init())))), dtype=float)
+            if obs is None:
+                # observations = the model's own expectation at a point whose interpolation parameters sit at +-0.8 (pulls them to either
+                # sign while the problem stays well-conditioned; Poisson-fluctuated data with empty bins make flat directions)
+                psh = [(fluct.choice([-0.8, 0.8]) if (lo < 0 and j % 2) else x) for x, (lo, hi) in zip(m.config.suggested_init(), m.config.suggested_bounds())]
+                obs = [float(x) for x in np.round(np.asarray(pyhf.tensorlib.tolist(m.expected_actualdata(pyhf.tensorlib.astensor(np.asarray(psh)))), dtype=float))]
             try:
-                vals[(bk, opt)] = float(np.asarray(pyhf.tensorlib.tolist(pyhf.infer.hypotest(1.0, list(np.round(exp0[:m.config.nmaindata])) + list(m.config.auxdata), m))))
+                vals[(bk, opt)] = float(np.asarray(pyhf.tensorlib.tolist(pyhf.infer.hypotest(1.0, obs + list(m.config.auxdata), m))))
             except Exception as e:  # noqa
                 ctx.tally('inference_exception', type(e).__name__)
         ctx.count()
         if vals:
             ref = list(vals.values())[0]
             for kx, v in vals.items():
-                if abs(v - ref) > 1e-3 * (abs(ref) + 1e-3):
-                    ctx.fail('C15/backend-optimiser', 'CLs differs between backends / optimisers beyond tolerance', {'spec': spec, 'config': list(kx)}, v, ref)
+                # non-convex likelihoods have flat directions and local optima on which SLSQP and MIGRAD legitimately stop at slightly different
+                # points (observed on the unchanged tree: 0.14 %, 0.2 % and 0.65 % of CLs on boundary / flat-direction fits); only a gross disagreement is reported here — tight
+                # optimality is C05's subject (KKT certificate on the convex family)
+                if abs(v - ref) > 2e-2 * abs(ref) + 1e-3:
+                    ctx.fail('C15/backend-optimiser', 'CLs differs between backends / optimisers beyond tolerance', {'spec': spec, 'config': list(kx), 'data': obs + list(pyhf.Model(spec, poi_name='mu').config.auxdata), 'all': {'/'.join(k): x for k, x in vals.items()}}, v, ref)
     pyhf.set_backend('numpy', 'scipy')
